@@ -190,7 +190,7 @@ Definition pow10_ok (k : Z) : bool :=
   | _ => false
   end.
 
-Lemma pow10_ok_all : forallb pow10_ok (zrange (-290) 290) = true.
+Lemma pow10_ok_all : forallb pow10_ok (zrange (-308) 308) = true.
 Proof. vm_cast_no_check (eq_refl true). Qed.
 
 Lemma bpow_R2 e : bpow radix2 e = if 0 <=? e then IZR (2 ^ e) else (/ IZR (2 ^ (- e)))%R.
@@ -200,10 +200,10 @@ Proof.
   - replace e with (- (- e)) at 1 by lia. rewrite bpow_opp. rewrite <- (IZR_Zpower radix2 (- e)) by lia. reflexivity.
 Qed.
 
-Lemma pow10_rel k : -290 <= k <= 290 ->
+Lemma pow10_rel k : -308 <= k <= 308 ->
   exists (P : bin64) d, pow10 k = B2SF P /\ is_finite P = true /\ B2R P = (Rp10 k * (1 + d))%R /\ (Rabs d <= uu)%R.
 Proof.
-  intros Hk. pose proof (zrange_forall _ (-290) 290 pow10_ok_all k Hk) as H. cbv beta in H. unfold pow10_ok in H.
+  intros Hk. pose proof (zrange_forall _ (-308) 308 pow10_ok_all k Hk) as H. cbv beta in H. unfold pow10_ok in H.
   destruct (pow10 k) as [s|s| |s m e] eqn:Ep; try discriminate. destruct s; [discriminate|].
   apply andb_true_iff in H. destruct H as [Hb H]. cbv zeta in H. apply Z.leb_le in H.
   set (A := Z.pos m * 2 ^ Z.max e 0 * 10 ^ Z.max (- k) 0) in *. set (B := 10 ^ Z.max k 0 * 2 ^ Z.max (- e) 0) in *.
@@ -580,7 +580,7 @@ Proof.
 Qed.
 
 Lemma dropped_digits_rel (neg : bool) n T R e x :
-  1844674407370955160 <= n < 2 ^ 64 -> 0 <= T -> 0 <= R < 10 ^ T -> -290 <= e <= 285 ->
+  10000000000000000 <= n < 2 ^ 64 -> 0 <= T -> 0 <= R < 10 ^ T -> -290 <= e <= 285 ->
   approx 5 x ((if neg then - IZR n else IZR n) * Rp10 e) ->
   let V := ((if neg then - IZR (n * 10 ^ T + R) else IZR (n * 10 ^ T + R)) * Rp10 (e - T))%R in
   (Rabs (x - V) <= 7 * uu * Rabs V)%R /\ (Rabs (x - round64 V) <= / 100000000000000 * Rabs (round64 V))%R.
@@ -588,14 +588,14 @@ Proof.
   intros Hn HT HR He (eps & Hx & Heps). cbv zeta.
   set (a := if neg then (- IZR n)%R else IZR n) in *.
   assert (HpT : (0 < IZR (10 ^ T))%R) by (apply IZR_pow10_pos; exact HT).
-  assert (Hn1 : (1844674407370955160 <= IZR n)%R) by (apply IZR_le; lia).
+  assert (Hn1 : (10000000000000000 <= IZR n)%R) by (apply IZR_le; lia).
   set (rho := (IZR R / (IZR n * IZR (10 ^ T)))%R).
-  assert (Hrho : (0 <= rho < / 1844674407370955160)%R).
+  assert (Hrho : (0 <= rho < / 10000000000000000)%R).
   { unfold rho. assert (0 <= IZR R)%R by (apply IZR_le; lia). assert (IZR R < IZR (10 ^ T))%R by (apply IZR_lt; lia).
     assert (Hden : (0 < IZR n * IZR (10 ^ T))%R) by nra.
     split; [apply Rmult_le_pos; [assumption|apply Rlt_le, Rinv_0_lt_compat; exact Hden]|].
     apply Rmult_lt_reg_r with (IZR n * IZR (10 ^ T))%R; [exact Hden|]. unfold Rdiv. rewrite Rmult_assoc, Rinv_l, Rmult_1_r by lra.
-    assert (IZR (10 ^ T) <= / 1844674407370955160 * (IZR n * IZR (10 ^ T)))%R by (rewrite <- Rmult_assoc; assert (1 <= / 1844674407370955160 * IZR n)%R by (apply Rmult_le_reg_l with 1844674407370955160%R; [lra|]; rewrite <- Rmult_assoc, Rinv_r, Rmult_1_l by lra; lra); nra).
+    assert (IZR (10 ^ T) <= / 10000000000000000 * (IZR n * IZR (10 ^ T)))%R by (rewrite <- Rmult_assoc; assert (1 <= / 10000000000000000 * IZR n)%R by (apply Rmult_le_reg_l with 10000000000000000%R; [lra|]; rewrite <- Rmult_assoc, Rinv_r, Rmult_1_l by lra; lra); nra).
     lra. }
   assert (HV : ((if neg then - IZR (n * 10 ^ T + R) else IZR (n * 10 ^ T + R)) * Rp10 (e - T) = a * Rp10 e * (1 + rho))%R).
   { replace e with (e - T + T) at 2 by lia. rewrite Rp10_add, (Rp10_nonneg T HT). rewrite plus_IZR, mult_IZR.
@@ -606,11 +606,11 @@ Proof.
   assert (Heps' : (Rabs ((1 + eps) / (1 + rho) - 1) <= 7 * uu)%R).
   { replace ((1 + eps) / (1 + rho) - 1)%R with ((eps - rho) / (1 + rho))%R by (field; lra).
     unfold Rdiv. rewrite Rabs_mult. assert (He6 : (Rabs eps <= 6 * uu)%R) by lra.
-    assert (H1 : (Rabs (eps - rho) <= 6 * uu + / 1844674407370955160)%R).
+    assert (H1 : (Rabs (eps - rho) <= 6 * uu + / 10000000000000000)%R).
     { eapply Rle_trans; [apply Rabs_triang|]. rewrite Rabs_Ropp, (Rabs_pos_eq rho) by lra. lra. }
     assert (H2 : (Rabs (/ (1 + rho)) <= 1)%R).
     { rewrite Rabs_pos_eq by (apply Rlt_le, Rinv_0_lt_compat; lra). rewrite <- Rinv_1. apply Rinv_le; lra. }
-    assert (H3 : (/ 1844674407370955160 <= uu)%R).
+    assert (H3 : (/ 10000000000000000 <= uu)%R).
     { unfold uu. apply Rinv_le; [apply IZR_lt; reflexivity|apply IZR_le; vm_compute; discriminate]. }
     pose proof (Rabs_pos (eps - rho)). pose proof (Rabs_pos (/ (1 + rho))). nra. }
   apply (rel_vs_rounded x _ _ Hx' Heps').
@@ -682,7 +682,7 @@ Proof.
   destruct (parse_float_of_scan sg M tail n dotv trunkv Hsg Hns Hscan Hnd) as (k & ->). fold me E.
   destruct (pf_value_accuracy_proof (sign_neg sg) n me E ltac:(lia) Hme HE He) as (v & -> & HvF & Hva). cbn [rbind].
   exists v, k. split; [reflexivity|]. split; [exact HvF|]. rewrite dec_real_Rp10 in Hva.
-  apply (dropped_digits_rel (sign_neg sg) n T R (E - me) (B2R v) Hn HT HR ltac:(lia) Hva).
+  apply (dropped_digits_rel (sign_neg sg) n T R (E - me) (B2R v) ltac:(lia) HT HR ltac:(lia) Hva).
 Qed.
 
 Lemma dec_value_from_lin ds : all_digits ds -> forall n, dec_value_from n ds = n * 10 ^ len ds + dec_value ds.
